@@ -253,6 +253,29 @@ def run_config(cfg, res):
             report('mismatch/long-name', why, stream, exp, '%s, name of %d bytes' % (desc, len(name.encode('utf-8'))), o['got'])
             break
         res.case(('long', cfg['proto'], L, alpha), True)
+  # a line beyond the 16384-byte limit between well-formed ones: the listener may drop the connection there (then nothing
+  # more arrives), or it may skip the line - but then every later datapoint of the stream arrives, however the stream is cut
+  if cfg['proto'] == 'line' and cfg['shard'] in (0, 1):
+    for L in (16390, 20000, 40000):
+      pts_b = [('short.before%d' % i, '1%d' % i, '1.5') for i in range(2)]
+      pts_a = [('short.after%d' % i, '2%d' % i, '-2') for i in range(3)]
+      stream = b''.join(codec.encode_line(n, v, t, None, b'\n') for n, t, v in pts_b) + (b'x' * L + b' 1 1\n') + \
+        b''.join(codec.encode_line(n, v, t, None, b'\n') for n, t, v in pts_a)
+      exp_b = [(n, (float(t), float(v))) for n, t, v in pts_b]
+      exp_a = [(n, (float(t), float(v))) for n, t, v in pts_a]
+      n_ = len(stream)
+      for segs, desc in [([stream], 'whole'), ([stream[i:i + 1000] for i in range(0, n_, 1000)], 'chunks1000'), ([stream[i:i + 16384] for i in range(0, n_, 16384)], 'chunks16384')] + \
+                        [(proto.cut(stream, sorted(set(r.randrange(1, n_) for _ in range(4)))), 'random4') for _ in range(6)]:
+        o = proto.tcp_session(P.MetricLineReceiver, segs, rec)
+        res.count('segmentations_executed')
+        res.count('overlong_line_sessions')
+        want = exp_b if o['disconnecting'] else exp_b + exp_a
+        why = ('exception %r' % o['exc']) if o['exc'] else proto.same_points(o['got'], want)
+        if why:
+          report('mismatch/after-overlong-line', why + (' (connection %s)' % ('closed' if o['disconnecting'] else 'kept open')), stream[:80], want[:3],
+                 '%s, line of %d bytes' % (desc, L + 5), o['got'])
+          break
+      res.case(('overlong', L), True)
   # big frames: thousands of datapoints in one pickle frame (a relay with a large MAX_DATAPOINTS_PER_MESSAGE), more
   # frames right behind it in the same read; anything carbon defers with reactor.callLater(0) is run between reads
   if cfg['proto'] == 'pickle' and cfg['shard'] in (0, 1):
